@@ -15,6 +15,11 @@ pub struct Corpus {
     pub programs: Vec<String>,
     /// library map sources
     pub libs: Vec<String>,
+    /// hand-written supplement (corpus/extra.txt): programs that reach node kinds the repository's own test
+    /// strings never produce (extern headers, ANSI UDPs, DPI exports, let, covergroups, sequences, constraints,
+    /// specify paths and timing checks, bind, config rules, strengths, patterns ...).  Kept apart from `programs`
+    /// so that the C17 catalogue and the memo-configuration baseline stay what they were.
+    pub extra: Vec<String>,
 }
 
 impl Corpus {
@@ -44,10 +49,17 @@ impl Corpus {
                 _ => {}
             }
         }
-        Corpus { recs, programs, libs }
+        let xpath = std::path::Path::new(path).with_file_name("extra.txt");
+        let xdata = std::fs::read_to_string(&xpath).unwrap_or_else(|e| panic!("cannot read corpus supplement {}: {}", xpath.display(), e));
+        let extra: Vec<String> = xdata.split("\n%%%\n").map(|r| format!("{}\n", r.trim_end_matches('\n'))).filter(|r| r.len() > 1).collect();
+        assert!(extra.len() >= 20, "corpus supplement truncated: {} records", extra.len());
+        Corpus { recs, programs, libs, extra }
     }
 
     pub fn pick_program<'a>(&'a self, rng: &mut Rng) -> &'a str {
+        if rng.chance(1, 6) {
+            return &self.extra[rng.below(self.extra.len())];
+        }
         &self.programs[rng.below(self.programs.len())]
     }
 }
